@@ -320,4 +320,145 @@ theorem spreadLoop_sim {lib : Lib} {ss : Spec.St} (item : Nat) (es : Exports) :
             intro n' _
             simp [spreadVal, st.ext.provOf item hi]
 
+theorem isInstance_iff (k : Kind) : k.isInstance = true ↔ ∃ es, k.instExports = some es := by
+  cases k <;> simp [Kind.isInstance, Kind.instExports]
+
+/-- an argument-table step of the model against the specification's -/
+inductive TblRel (lib : Lib) (ms : State) (ss : Spec.St) :
+    Except Diag (State × List (Str × Nat)) → Except Diag (List (Str × Spec.Val)) → Prop
+  | err (d : Diag) : TblRel lib ms ss (.error d) (.error d)
+  | ok {ms' : State} {tbl' : List (Str × Nat)} :
+      Sim lib ms' ss → Ext ms.graph ms'.graph → ms'.scope = ms.scope → ms'.graph.packages = ms.graph.packages →
+      (∀ x ∈ tbl', x.2 < ms'.graph.nodes.length) → (tbl'.map (·.1)).Nodup →
+      TblRel lib ms ss (.ok (ms', tbl')) (.ok (tblVals ms'.graph tbl'))
+
+theorem tblVals_keys (g : Graph) (tbl : List (Str × Nat)) : (tblVals g tbl).map (·.1) = tbl.map (·.1) := by
+  unfold tblVals
+  rw [List.map_map]
+  apply List.map_congr_left
+  intro x _
+  rfl
+
+/-- one spread argument: "spread to any unspecified and unsatisfied arguments", error if it
+    contributes nothing or is not an instance -/
+theorem spreadArg_sim {lib : Lib} {ms : State} {ss : Spec.St} (hs : Sim lib ms ss) (x : Str)
+    (expected : List Str) (hnd : expected.Nodup) (tbl : List (Str × Nat))
+    (hb : ∀ y ∈ tbl, y.2 < ms.graph.nodes.length) (hk : (tbl.map (·.1)).Nodup) :
+    TblRel lib ms ss (spreadInstantiationArg ms x expected tbl)
+      (Spec.spreadStep ss expected x (tblVals ms.graph tbl)) := by
+  unfold Spec.spreadStep
+  unfold spreadInstantiationArg
+  obtain ⟨l1, l2⟩ := lookup_sim hs x
+  cases hl : ms.localItem x with
+  | error d => rw [l2 d hl]; exact .err d
+  | ok item =>
+    obtain ⟨hlook, hi⟩ := l1 item hl
+    rw [hlook]
+    simp only
+    have hkind : (valOf ms.graph item).kind = ms.graph.kindOf item := rfl
+    rw [hkind]
+    cases hes : (ms.graph.kindOf item).instExports with
+    | none =>
+      have : (ms.graph.kindOf item).isInstance = false := by
+        cases hh : (ms.graph.kindOf item).isInstance with
+        | false => rfl
+        | true => obtain ⟨es, he⟩ := (isInstance_iff _).mp hh; rw [he] at hes; cases hes
+      simp only [this, Bool.not_false, ↓reduceIte]
+      exact .err _
+    | some es =>
+      have hinst : (ms.graph.kindOf item).isInstance = true := (isInstance_iff _).mpr ⟨es, hes⟩
+      simp only [hinst, Bool.not_true, Bool.false_eq_true, ↓reduceIte]
+      obtain ⟨ms', new, he, r⟩ := spreadLoop_sim (lib := lib) (ss := ss) item es expected ms tbl false hs hi hes hnd
+      rw [he]
+      simp only [Bool.false_or]
+      have hfil : expected.filter (fun n => !alHas n (tblVals ms.graph tbl) && es.has n) =
+          expected.filter (fun n => !alHas n tbl && es.has n) := by
+        apply List.filter_congr
+        intro n _
+        rw [alHas_tblVals]
+      rw [hfil]
+      have hlen : new.length = (expected.filter (fun n => !alHas n tbl && es.has n)).length := by
+        have := congrArg List.length r.vals
+        simpa [tblVals] using this
+      by_cases hemp : new.isEmpty = true
+      · have hnew : new = [] := by simpa using hemp
+        have hc : (expected.filter (fun n => !alHas n tbl && es.has n)).isEmpty = true := by
+          rw [hnew] at hlen
+          simpa using hlen.symm
+        simp only [hemp, Bool.not_true, Bool.not_false, ↓reduceIte, hc]
+        exact .err _
+      · have hemp' : new.isEmpty = false := by simpa using hemp
+        have hc : (expected.filter (fun n => !alHas n tbl && es.has n)).isEmpty = false := by
+          cases hh : (expected.filter (fun n => !alHas n tbl && es.has n)).isEmpty with
+          | false => rfl
+          | true =>
+            have : expected.filter (fun n => !alHas n tbl && es.has n) = [] := by simpa using hh
+            rw [this] at hlen
+            have : new = [] := by simpa using hlen
+            rw [this] at hemp'; cases hemp'
+        simp only [hemp', Bool.not_false, Bool.not_true, Bool.false_eq_true, ↓reduceIte, hc]
+        have hvals : tblVals ms.graph tbl ++ (expected.filter (fun n => !alHas n tbl && es.has n)).map (fun n =>
+            (n, ({ prov := .exportOf (valOf ms.graph item).prov n, kind := (es.get n).getD default } : Spec.Val)))
+            = tblVals ms'.graph (tbl ++ new) := by
+          rw [tblVals_append, tblVals_ext r.ext tbl hb, r.vals]
+          rfl
+        rw [hvals]
+        refine .ok r.sim r.ext r.scope r.packages ?_ ?_
+        · intro y hy
+          rcases List.mem_append.mp hy with hy | hy
+          · exact Nat.lt_of_lt_of_le (hb y hy) r.ext.length_le
+          · exact r.bound y hy
+        · -- the new keys are names that were not in the table, each once
+          have hkeys : new.map (·.1) = expected.filter (fun n => !alHas n tbl && es.has n) := by
+            have := congrArg (List.map (·.1)) r.vals
+            rw [tblVals_keys] at this
+            rw [this, List.map_map]
+            simp [spreadVal, Function.comp_def]
+          rw [List.map_append, List.nodup_append]
+          refine ⟨hk, ?_, ?_⟩
+          · rw [hkeys]; exact hnd.sublist List.filter_sublist
+          · intro a ha b hb' e
+            subst e
+            rw [hkeys] at hb'
+            have := (List.mem_filter.mp hb').2
+            have hin : alHas a tbl = true := (alHas_iff_mem_keys a tbl).mpr ha
+            simp [hin] at this
+
+theorem TblRel.weaken {lib : Lib} {ms ms1 : State} {ss : Spec.St} (he : Ext ms.graph ms1.graph)
+    (hsc : ms1.scope = ms.scope) (hp : ms1.graph.packages = ms.graph.packages)
+    {a : Except Diag (State × List (Str × Nat))} {b : Except Diag (List (Str × Spec.Val))}
+    (h : TblRel lib ms1 ss a b) : TblRel lib ms ss a b := by
+  cases h with
+  | err d => exact .err d
+  | ok s e sc pk bd nd => exact .ok s (he.trans e) (sc.trans hsc) (pk.trans hp) bd nd
+
+/-- the spread arguments of a `new`, applied in order after the explicit arguments -/
+theorem spreads_sim {lib : Lib} {ss : Spec.St} (expected : List Str) (hnd : expected.Nodup) :
+    ∀ (args : Args) (ms : State) (tbl : List (Str × Nat)), Sim lib ms ss →
+      (∀ y ∈ tbl, y.2 < ms.graph.nodes.length) → (tbl.map (·.1)).Nodup →
+      TblRel lib ms ss (newExprSpreads expected ms tbl args)
+        (Spec.applySpreads ss expected (Spec.spreadNames args) (tblVals ms.graph tbl))
+  | .nil, ms, tbl, hs, hb, hk => by
+    simp only [newExprSpreads, Spec.spreadNames, Spec.applySpreads]
+    exact .ok hs (Ext.refl _) rfl rfl hb hk
+  | .cons (.spread x) rest, ms, tbl, hs, hb, hk => by
+    simp only [newExprSpreads, Spec.spreadNames, Spec.applySpreads]
+    have h := spreadArg_sim hs x expected hnd tbl hb hk
+    generalize spreadInstantiationArg ms x expected tbl = a at h
+    generalize Spec.spreadStep ss expected x (tblVals ms.graph tbl) = b at h
+    cases h with
+    | err d => exact .err d
+    | ok s e sc pk bd nd =>
+      simp only
+      exact TblRel.weaken e sc pk (spreads_sim expected hnd rest _ _ s bd nd)
+  | .cons (.inferred _) rest, ms, tbl, hs, hb, hk => by
+    simp only [newExprSpreads, Spec.spreadNames]
+    exact spreads_sim expected hnd rest ms tbl hs hb hk
+  | .cons (.named _ _) rest, ms, tbl, hs, hb, hk => by
+    simp only [newExprSpreads, Spec.spreadNames]
+    exact spreads_sim expected hnd rest ms tbl hs hb hk
+  | .cons .fill rest, ms, tbl, hs, hb, hk => by
+    simp only [newExprSpreads, Spec.spreadNames]
+    exact spreads_sim expected hnd rest ms tbl hs hb hk
+
 end Wac.Lemmas.C04
